@@ -201,10 +201,13 @@ def rule_text(ctx, mod, ci):
         ctx.check(ok, R, "set_note[F..-%s]" % octext, fs.where(), "set_note('F..-%s')" % octext,
                   "text 'name-octave' parsed to name=%r octave=%r (%s)" % (nm, o.attrs.get("octave"), [(p.kind, p.value) for p in paths]))
     # rejections
-    other = nd.other_class(set(LETTERS) | {"-"}, "FOREIGN")
+    other = nd.other_class(set(LETTERS) | {"-", "#", "b"}, "FOREIGN")
+    acc_head = Ch("ACCHEAD", {"#", "b"})
     bad_tail = nd.other_class({"#", "b", "-"}, "FOREIGNTAIL")
-    for label, s in (("foreign-head", AbsStr([other])), ("foreign-tail", AbsStr(["C", bad_tail])), ("two-dashes", "C-4-4"),
-                     ("bad-name-with-octave", AbsStr([other, "-4"]))):
+    for label, s in (("foreign-head", AbsStr([other])), ("accidental-head", AbsStr([acc_head])), ("accidental-before-letter", AbsStr([acc_head, "C"])),
+                     ("accidentals-around-letter", AbsStr([acc_head, "G", nd.acc_run("A")])), ("foreign-head-before-letter", AbsStr([other, "C"])),
+                     ("foreign-tail", AbsStr(["C", bad_tail])), ("two-dashes", "C-4-4"),
+                     ("bad-name-with-octave", AbsStr([other, "-4"])), ("accidental-head-with-octave", AbsStr([acc_head, "D-4"]))):
         paths = paths_of(ctx.repo, fs, lambda: [note_obj(ci), s, 4, {}])
         ok = bool(paths) and all(p.kind == "raise" and p.value == "NoteFormatError" for p in paths)
         ctx.check(ok, R, "set_note.rejects[%s]" % label, fs.where(), "set_note(<%s>)" % label,
